@@ -359,7 +359,7 @@ def obs_serial(c: Ctx, enc, *, props, quick=True, salt=0, tmpdir=None):
                 load_kw["mapper"] = deser_mapper
             cls = tree_class(fl, derived)
             a = {"key_map": km_mode, "value_map": vm_mode, "compression": comp, "target": target, "derived": derived,
-                 "is_str": fl.is_str}
+                 "is_str": fl.is_str, "strs": fl.str_values()}
             if vm_mode == "partial":   # a value occurs that the caller's map does not list
                 a["partial"] = any(st["par"][i] != -1 and st["dat"][i] == 2 for i in range(st["n"]))
             # what the header must declare: the maps in use
@@ -432,10 +432,13 @@ def obs_serial(c: Ctx, enc, *, props, quick=True, salt=0, tmpdir=None):
                 except OSError:
                     pass
     # ------------------------------------------------------------------ C12 reading side
-    if "C12" in props and not hasattr(fl, "lib_mappers"):
+    strict = getattr(fl, "strict_docs", False)     # strings + objects with a deserialiser that knows its objects only
+    if "C12" in props and (strict or not hasattr(fl, "lib_mappers")):
         cls = tree_class(fl, False)
         # documents holding only strings (bare, or as {"str":[, "data_id":][, "kind":]} entries) need no callback
         load_kw = {} if fl.is_str and salt % 2 else {"mapper": deser_mapper}
+        if strict:
+            load_kw = {"mapper": fl.lib_mappers[1]}
         variants = {
             "plain": {},
             # no key map in the header although the entries use the short names of the default map as USER keys
@@ -453,6 +456,8 @@ def obs_serial(c: Ctx, enc, *, props, quick=True, salt=0, tmpdir=None):
         def deser_short(parent, data):   # mapper of a user whose own keys are 's' and 'i'
             return Item(data["s"], data["i"]) if "s" in data else deser_mapper(parent, data)
 
+        if strict:   # (entries the strict deserialiser would be handed although they are not its objects: left out)
+            variants = {k: v for k, v in variants.items() if k in ("plain", "keymap", "keymap+valuemap", "valuemap_only")}
         for dname, kw in variants.items():
             doc = render_doc(enc, fl, **kw)
             a = {"doc": dname, "expect": "ok"}
